@@ -4,6 +4,7 @@
 package encoding
 
 //@ const_global zeroTime: abs(zeroTime) == 0
+//@ const_global log: log != nil
 
 //@ func TimeFromInt
 //@   ensures val: abs(result) == ts + 62135596800000000000
@@ -85,7 +86,7 @@ package encoding
 //@   let U = untilOf(seq)
 //@   let n = periodsOf(seq, width)
 //@   requires wf: wfSeq(seq, width) && resolution > 0 && resolution < 1152921504606846976
-//@   requires times: normalTime(asOf) && normalTime(until) && (len(seq) > 0 ==> normalAbs(U))
+//@   requires times: roomTime(asOf) && roomTime(until) && (len(seq) > 0 ==> normalAbs(U))
 //@   ensures empty_in: len(seq) == 0 ==> len(result) == 0
 //@   ensures shape: len(result) > 0 ==> wfSeq(result, width) && emod(U - untilOf(result), resolution) == 0 && untilOf(result) <= U
 //@   ensures sub_until: len(result) > 0 ==> (let d = (U - untilOf(result)) / resolution in untilOf(result) == U - d*resolution && 0 <= d && d + periodsOf(result, width) <= n)
@@ -96,6 +97,7 @@ package encoding
 //@   instance res250ms_w17: resolution == 250000000 && width == 17
 //@   instance res3s_w9: resolution == 3000000000 && width == 9
 //@   ensures origin: len(result) > 0 ==> obj(result) == obj(seq) || fresh(result)
+//@   ensures has_period: len(result) > 0 && len(seq) > 8 ==> len(result) > 8
 //@   ensures until_bound: len(result) > 0 && abs(until) != 0 ==> untilOf(result) <= abs(until)
 //@   ensures asof_bound: len(result) > 0 && abs(asOf) != 0 ==> untilOf(result) - periodsOf(result, width)*resolution > abs(asOf) - resolution
 //@   ensures nothing_kept: len(result) == 0 ==> forall k in 0..n :: !((abs(asOf) == 0 || U - k*resolution - resolution >= abs(asOf)) && (abs(until) == 0 || U - k*resolution <= abs(until)))
@@ -187,3 +189,34 @@ package encoding
 //@   instance s1: resolution == 1000000000 && otherResolution == 1000000000 && ex.EncodedWidth() == 9 && otherEx.EncodedWidth() == 9
 //@   instance s3: resolution == 3000000000 && otherResolution == 1000000000 && ex.EncodedWidth() == 9 && otherEx.EncodedWidth() == 9
 //@   nopanic own
+
+//@ func (Sequence).UpdateValueAtOffset
+//@   requires e != nil && offset >= 0 && len(seq) >= 8 + offset + e.EncodedWidth()
+//@   modifies seq[8+offset:8+offset+e.EncodedWidth()]
+//@   nopanic
+
+//@ func (Sequence).UpdateValueAt
+//@   requires e != nil && period >= 0 && len(seq) >= 8 + period*e.EncodedWidth() + e.EncodedWidth()
+//@   modifies seq[8+period*e.EncodedWidth():8+period*e.EncodedWidth()+e.EncodedWidth()]
+//@   nopanic
+
+// UpdateValue (C01/C14): a point with timestamp ts is applied to the period ending at T = roundUp(ts, resolution) and to
+// no other; every other period that is still inside the retention window keeps its bytes; the sequence stays well
+// formed with its until on the resolution grid; a point at or before truncateBefore is not stored.
+//@ func (Sequence).UpdateValue
+//@   let w = e.EncodedWidth()
+//@   let U = untilOf(seq)
+//@   let n = periodsOf(seq, w)
+//@   requires expr: e != nil && w > 0
+//@   requires wf: wfSeq(seq, w) && resolution > 0 && resolution < 1152921504606846976 && (len(seq) > 0 ==> len(seq) > 8 && emod(U, resolution) == 0 && normalAbs(U))
+//@   requires times: normalAbs(abs(ts)) && normalTime(truncateBefore)
+//@   requires span: n * resolution < 1152921504606846976
+//@   modifies seq[8:len(seq)]
+//@   ensures shape: len(result) > 0 ==> wfSeq(result, w) && len(result) > 8 && emod(untilOf(result), resolution) == 0
+//@   ensures period_of_point: abs(ts) > abs(RoundTimeUntilUp(truncateBefore, resolution, asTime(len(seq) == 0 ? abs(RoundTimeUp(ts, resolution)) : U))) ==> len(result) > 0 && untilOf(result) >= abs(RoundTimeUp(ts, resolution)) && (untilOf(result) - abs(RoundTimeUp(ts, resolution))) / resolution < periodsOf(result, w)
+//@   let T = abs(RoundTimeUp(ts, resolution))
+//@   let tb = abs(RoundTimeUntilUp(truncateBefore, resolution, asTime(len(seq) == 0 ? T : U)))
+//@   ensures others_kept: T > tb ==> forall k in 0..n :: U - k*resolution > tb && U - k*resolution != T ==> (let k2 = (untilOf(result) - (U - k*resolution)) / resolution in 0 <= k2 && k2 < periodsOf(result, w) && untilOf(result) - k2*resolution == U - k*resolution && (forall j in 0..w :: result[8+k2*w+j] == old(seq[8+k*w+j])))
+//@   ensures expired_point: T <= tb ==> len(result) == 0 || (obj(result) == obj(seq) || fresh(result))
+//@   instance res1s_w9: resolution == 1000000000 && e.EncodedWidth() == 9
+//@   nopanic
